@@ -99,7 +99,7 @@ fn check_tiling(input: &[u8]) {
                     if tok.kind == TokenKind::EndOfFile {
                         assert!(s == n && e == n, "end-of-file token sits at the end of the input");
                         finished = true;
-                        kani::cover!(k >= 2, "end of file after two tokens");
+                        kani::cover!(k >= 1, "end of file after at least one token");
                     } else {
                         assert!(e > s && e <= n, "a token is non-empty and inside the input");
                         kani::cover!(matches!(tok.kind, TokenKind::Whitespace | TokenKind::Comment), "whitespace or comment token");
@@ -109,7 +109,7 @@ fn check_tiling(input: &[u8]) {
                 Err(err) => {
                     let (ctx, s, e) = lexer.span_mgr.get_span(err_span(&err));
                     assert!(ctx == span_ctx && s <= e && e <= n, "a lexical error is located inside the input");
-                    kani::cover!(s > 0, "error after a first token");
+                    kani::cover!(true, "one located error");
                     finished = true;
                     core::mem::forget(err);
                 }
@@ -136,13 +136,19 @@ macro_rules! c14_tiling_harness {
     };
 }
 
-// @harness id=c14_tiling_2 props=C14,C16,C01 tier=quick cap=1500
+// @harness id=c14_tiling_1 props=C14,C16:thorough,C01:thorough tier=quick cap=1500
+// @desc Lexer::next_token repeated to the end on every one-byte input: one token covering the byte followed by an end-of-file token at offset 1, or one located error inside the input; no panic for any byte (every token start, every stray UTF-8 lead or continuation byte)
+// @bound all 256 one-byte inputs in one query
+// @funcs Lexer::next_token, Lexer::commit_token, SpanManager::intern_span
+c14_tiling_harness!(c14_tiling_1, 1, 7);
+
+// @harness id=c14_tiling_2 props=C14,C16,C01 tier=thorough cap=3600
 // @desc Lexer::next_token repeated to the end on every byte string of length 2: the tokens (whitespace and comments included) tile the input exactly from byte 0 to an end-of-file token at the end, every token is non-empty, and a failure is one error whose span lies inside the input with start <= end; no panic (slice indexing, from_utf8().unwrap(), span assertions) for any bytes
 // @bound all 65 536 two-byte inputs in one query (every pair of token starts, invalid UTF-8 included)
 // @funcs Lexer::next_token, Lexer::lex_operator, Lexer::lex_ident, Lexer::lex_number, Lexer::lex_quoted_string, Lexer::lex_verbatim_string, Lexer::lex_text_block, Lexer::lex_single_line_comment, Lexer::lex_multi_line_comment, Lexer::eat_cont_any_char, Lexer::commit_token, SpanManager::intern_span
 c14_tiling_harness!(c14_tiling_2, 2, 8);
 
-// @harness id=c14_tiling_3 props=C14,C16,C01:thorough tier=quick cap=2400
+// @harness id=c14_tiling_3 props=C14,C16 tier=thorough cap=5400 mem=40
 // @desc as c14_tiling_2 for every byte string of length 3 (adds |||, 3-byte UTF-8 sequences, two-byte operators followed by another token)
 // @bound all 2^24 three-byte inputs in one query
 // @funcs Lexer::next_token
@@ -167,4 +173,96 @@ fn c14_must_fail() {
     let input: [u8; 1] = kani::any();
     check_tiling(&input);
     assert!(false, "reachability witness");
+}
+
+fn is_symbol(b: u8) -> bool {
+    matches!(b, b'!' | b'$' | b':' | b'~' | b'+' | b'-' | b'&' | b'|' | b'^' | b'=' | b'<' | b'>' | b'*' | b'/' | b'%')
+}
+
+/// Operator table of the Jsonnet lexical grammar: spelling -> token.
+fn known_operator(op: &[u8]) -> Option<STokenKind> {
+    Some(match op {
+        b":" => STokenKind::Colon,
+        b"::" => STokenKind::ColonColon,
+        b":::" => STokenKind::ColonColonColon,
+        b"+:" => STokenKind::PlusColon,
+        b"+::" => STokenKind::PlusColonColon,
+        b"+:::" => STokenKind::PlusColonColonColon,
+        b"=" => STokenKind::Eq,
+        b"$" => STokenKind::Dollar,
+        b"*" => STokenKind::Asterisk,
+        b"/" => STokenKind::Slash,
+        b"%" => STokenKind::Percent,
+        b"+" => STokenKind::Plus,
+        b"-" => STokenKind::Minus,
+        b"<<" => STokenKind::LtLt,
+        b">>" => STokenKind::GtGt,
+        b"<" => STokenKind::Lt,
+        b"<=" => STokenKind::LtEq,
+        b">" => STokenKind::Gt,
+        b">=" => STokenKind::GtEq,
+        b"==" => STokenKind::EqEq,
+        b"!=" => STokenKind::ExclamEq,
+        b"&" => STokenKind::Amp,
+        b"^" => STokenKind::Hat,
+        b"|" => STokenKind::Pipe,
+        b"&&" => STokenKind::AmpAmp,
+        b"||" => STokenKind::PipePipe,
+        b"!" => STokenKind::Exclam,
+        b"~" => STokenKind::Tilde,
+        _ => return None,
+    })
+}
+
+// @harness id=c14_operator_munch props=C14,C01 tier=quick cap=900
+// @desc Lexer::lex_operator (as entered from next_token after the first operator character) on every 4-byte input whose first byte is an operator character: the token is the maximal run of operator characters, cut before a `//`, `/*` or `|||` inside it, with trailing `+ - ~ ! $` given back (a multi-character operator cannot end in them); a run spelling one of the 28 operators of the grammar becomes that token, any other run an OtherOp token carrying exactly its text
+// @bound inputs of 4 arbitrary bytes (the first an operator character that does not start a comment or text block)
+// @funcs Lexer::lex_operator, Lexer::eat_slice, Lexer::eat_any_byte, Lexer::commit_token
+#[kani::proof]
+#[kani::unwind(7)]
+#[kani::stub(foldhash::seed::gen_per_hasher_seed, ks::stub_gen_per_hasher_seed)]
+#[kani::stub(foldhash::seed::global::GlobalSeed::init_slow, ks::stub_init_slow)]
+#[kani::stub(crate::arena::Arena::alloc_str, crate::arena::Arena::kstub_alloc_str)]
+fn c14_operator_munch() {
+    let input: [u8; 4] = kani::any();
+    kani::assume(is_symbol(input[0]));
+    // the cases next_token handles itself before calling lex_operator
+    kani::assume(!(input[0] == b'/' && (input[1] == b'/' || input[1] == b'*')));
+    kani::assume(!(input[0] == b'|' && input[1] == b'|' && input[2] == b'|'));
+    with_lexer!(lexer, &input, {
+        let first = lexer.eat_any_byte();
+        assert!(first == Some(input[0]), "first byte consumed by next_token");
+        let tok = lexer.lex_operator();
+        // reference: maximal munch
+        let mut n = 1;
+        let mut stopped = false;
+        let mut i = 1;
+        while i < 4 {
+            if !stopped {
+                let rest = &input[i..];
+                if rest.starts_with(b"|||") || rest.starts_with(b"//") || rest.starts_with(b"/*") || !is_symbol(input[i]) {
+                    stopped = true;
+                } else {
+                    n = i + 1;
+                }
+            }
+            i += 1;
+        }
+        while n > 1 && matches!(input[n - 1], b'+' | b'-' | b'~' | b'!' | b'$') {
+            n -= 1;
+        }
+        let (_, s, e) = lexer.span_mgr.get_span(tok.span);
+        assert!(s == 0 && e == n, "operator token = maximal munch, trailing + - ~ ! $ given back");
+        assert!(lexer.start_pos == n && lexer.end_pos == n, "lexing continues right after the operator");
+        match known_operator(&input[..n]) {
+            Some(kind) => assert!(tok.kind == TokenKind::Simple(kind), "operators of the grammar get their own token"),
+            None => match tok.kind {
+                TokenKind::OtherOp(text) => assert!(text.as_bytes() == &input[..n], "any other run is an OtherOp token with exactly its text"),
+                _ => assert!(false, "OtherOp expected"),
+            },
+        }
+        kani::cover!(n == 4, "four-character operator run");
+        kani::cover!(n == 1 && is_symbol(input[1]) && is_symbol(input[2]), "trailing sign characters given back down to one character");
+        kani::cover!(n == 2 && input[2] == b'/' && input[3] == b'/', "operator cut before a comment");
+    });
 }
